@@ -624,11 +624,20 @@ func splitElementaryTypeSuffix(abiTypeString string, pos int) (string, string) {
 	return suffix.String(), arrays.String()
 }
 
+// isCanonicalDecimal checks the text of a parsed dimension is the canonical decimal form of its value
+// (no leading zeros), as only the canonical spelling of a type contributes to a valid signature
+func isCanonicalDecimal(val uint64, text string) bool {
+	return strconv.FormatUint(val, 10) == text
+}
+
 // parseMSuffix parses the "256" in "uint256" against the the <M> rules for an elementary type, such as uint<M>, or ufixed<M>x<N>.
 func parseMSuffix(ctx context.Context, abiTypeString string, ec *typeComponent, suffix string) error {
 	val, err := strconv.ParseUint(suffix, 10, 16)
 	if err != nil {
 		return i18n.WrapError(ctx, err, signermsgs.MsgInvalidABISuffix, abiTypeString, ec.elementaryType)
+	}
+	if !isCanonicalDecimal(val, suffix) {
+		return i18n.NewError(ctx, signermsgs.MsgInvalidABISuffix, abiTypeString, ec.elementaryType)
 	}
 	//nolint:gosec // we used bitSize on ParseUint above
 	ec.m = uint16(val)
@@ -646,6 +655,9 @@ func parseNSuffix(ctx context.Context, abiTypeString string, ec *typeComponent, 
 	val, err := strconv.ParseUint(suffix, 10, 16)
 	if err != nil {
 		return i18n.WrapError(ctx, err, signermsgs.MsgInvalidABISuffix, abiTypeString, ec.elementaryType)
+	}
+	if !isCanonicalDecimal(val, suffix) {
+		return i18n.NewError(ctx, signermsgs.MsgInvalidABISuffix, abiTypeString, ec.elementaryType)
 	}
 	//nolint:gosec // we used bitSize on ParseUint above
 	ec.n = uint16(val)
@@ -677,6 +689,9 @@ func parseArrayM(ctx context.Context, abiTypeString string, ac *typeComponent, m
 	val, err := strconv.ParseUint(mStr, 10, 32)
 	if err != nil {
 		return i18n.WrapError(ctx, err, signermsgs.MsgInvalidABIArraySpec, abiTypeString)
+	}
+	if !isCanonicalDecimal(val, mStr) {
+		return i18n.NewError(ctx, signermsgs.MsgInvalidABIArraySpec, abiTypeString)
 	}
 	//nolint:gosec // we used bitSize on ParseUint above
 	ac.arrayLength = int(val)
